@@ -65,8 +65,11 @@ class SpatialNetwork(Network):
         """(Grid) - Grid object describing the network's spatial embedding"""
 
         #  Call constructor of parent class Network
-        Network.__init__(self, adjacency=adjacency, edge_list=edge_list,
-                         directed=directed, silence_level=silence_level)
+        #  (the number of nodes is the grid's, also when an edge list does not
+        #  mention the last nodes or is empty)
+        Network.__init__(self, adjacency=adjacency, n_nodes=grid.N,
+                         edge_list=edge_list, directed=directed,
+                         silence_level=silence_level)
 
     def __cache_state__(self) -> Tuple[Hashable, ...]:
         return Network.__cache_state__(self) + (self.grid,)
